@@ -75,9 +75,9 @@ func (c *c11Chan) cut() chstore.BackupChannelCut {
 type c11Source struct {
 	reportedLEO map[string]bool
 	chans       []*c11Chan
-	slot    uint16
-	nextID  uint64
-	nextCmd uint64
+	slot        uint16
+	nextID      uint64
+	nextCmd     uint64
 }
 
 func (s *c11Source) exported() []*c11Chan {
@@ -902,7 +902,7 @@ func TestVerifC11Message(t *testing.T) {
 	r.Assume("Forged streams (checksum recomputed) may legitimately be accepted when they encode a well-formed different snapshot; for them only no-panic, no partial state behind an error of the two-phase reader import, and working cleanup are asserted.")
 
 	root := t.TempDir()
-	nCases := r.N(24, 300)
+	nCases := r.N(14, 220)
 	nRandom := r.N(40, 160)
 	for ci := 0; ci < nCases; ci++ {
 		if r.Skip(ci) {
@@ -1010,6 +1010,9 @@ func c11MessageCase(r *verifkit.Run, rng *rand.Rand, ci int, dir string, nRandom
 		// conflicting checkpoint: the same channels cut at a different HW
 		if vi == 0 {
 			c11Conflict(r, rng, src, srcF, tgt, s, shape)
+		}
+		if vi == 1 && len(src.reportedLEO) > 0 {
+			c11ProbeLEO(r, src, tgt)
 		}
 		tgt.Close()
 		os.RemoveAll(tdir)
@@ -1120,6 +1123,35 @@ func c11MessageCase(r *verifkit.Run, rng *rand.Rand, ci int, dir string, nRandom
 
 	// ---- interrupted restore, retried -------------------------------------
 	c11Retry(r, rng, src, srcF, s, req, shape, filepath.Join(dir, "retry"))
+}
+
+// c11ProbeLEO documents (evidence only, nothing asserted) how a restored store
+// whose LEO exceeds the restored HW behaves when it is used.
+func c11ProbeLEO(r *verifkit.Run, src *c11Source, tgt *chstore.MessageDBFactory) {
+	for _, c := range src.exported() {
+		if !src.reportedLEO[c.id.ID] {
+			continue
+		}
+		st, err := tgt.ChannelStore(c.key, c.id)
+		if err != nil {
+			return
+		}
+		defer st.Close()
+		probe := map[string]any{"channel": c.id.ID, "exact": c.exact, "exported_hw": c.hw, "source_leo": c.leo()}
+		if xs, ok := st.(chstore.ExactStateLoader); ok && c.exact {
+			ex, err := xs.LoadExactState(c11Ctx)
+			probe["load_exact_state"] = fmt.Sprintf("leo=%d hw=%d tail_index=%d err=%v", ex.LEO, ex.HW, ex.TailIdentity.Index, err)
+		}
+		lg, err := st.ReadLog(c11Ctx, chstore.ReadLogRequest{FromOffset: c.hw + 1, MaxBytes: 1 << 20})
+		probe["read_log_above_hw"] = fmt.Sprintf("records=%d err=%v", len(lg.Records), err)
+		if !c.exact {
+			res, err := st.AppendLeader(c11Ctx, chstore.AppendLeaderRequest{Records: []ch.Record{{ID: 1 << 40, ServerTimestampMS: 1_700_000_000_000, Payload: []byte("probe")}}})
+			probe["append_after_restore"] = fmt.Sprintf("base=%d last=%d err=%v", res.BaseOffset, res.LastOffset, err)
+		}
+		r.Note("restored_leo_above_hw_probe", probe)
+		r.Count("audit.leo_probe", 1)
+		return
+	}
 }
 
 func c11FirstDiff(a, b []byte) int {
